@@ -31,17 +31,19 @@ Lemma ar_w_nonvacuous :
   option_map (map ar_o_name) (ar_apply ar_w_genv ar_w_inv [ar_w_good]) = Some [[72; 33; 83; 33; 114; 48]].
 Proof. vm_compute. repeat split. Qed.
 
-(* apply Service "r0" for (host in host.vars.l) { assign where host.name == "H" }:
-   the indexed load creates H!r0a, the plain load fails ("a".name throws) *)
+(* apply Service "r0" for (host in host.vars.l) { assign where host.name == "H" }: the loop variable hides
+   the target ("a".name throws).  Since the fix (AddRule: shadowsTarget) the rule is not indexed, so both
+   loads fail alike; before it the indexed load created H!r0a. *)
 Definition ar_w_shadow : ar_rule :=
   {| ar_r_kind := 0; ar_r_to_svc := false; ar_r_name := ar_w_r0; ar_r_filter := AEEq ar_w_hostname (AELit (AVStr ar_w_H));
      ar_r_for := Some (ar_s_host, [], ar_w_vars_l); ar_r_use := []; ar_r_body := []; ar_r_parent := [] |}.
 
 Definition ar_w_invH : list ar_host := firstn 1 ar_w_inv.
 
-Lemma ar_shadow_refuted :
-  ar_no_shadow ar_w_shadow = false /\
-  option_map (map ar_o_name) (ar_apply_fast ar_w_genv ar_w_invH [ar_w_shadow]) = Some [[72; 33; 114; 48; 97]] /\
+Lemma ar_shadow_fixed :
+  ar_shadows_target ar_w_shadow = true /\ ar_rule_index ar_w_shadow = AIRegular /\
+  ar_target_hosts None (ar_r_filter ar_w_shadow) = Some [ar_w_H] /\
+  ar_apply_fast ar_w_genv ar_w_invH [ar_w_shadow] = None /\
   ar_apply ar_w_genv ar_w_invH [ar_w_shadow] = None.
 Proof. vm_compute. repeat split. Qed.
 
@@ -51,17 +53,19 @@ Definition ar_w_forerr : ar_rule :=
   ar_w_rule 0 false (AEEq ar_w_hostname (AELit (AVStr ar_w_H))) (Some (ar_w_k, [], ar_w_vars_l)).
 
 Lemma ar_for_error_refuted :
-  ar_no_shadow ar_w_forerr = true /\ ar_for_ok ar_w_genv ar_w_inv ar_w_forerr = false /\
+  ar_shadows_target ar_w_forerr = false /\ ar_for_ok ar_w_genv ar_w_inv ar_w_forerr = false /\
   option_map (map ar_o_name) (ar_apply_fast ar_w_genv ar_w_inv [ar_w_forerr]) = Some [[72; 33; 114; 48; 97]] /\
   ar_apply ar_w_genv ar_w_inv [ar_w_forerr] = None.
 Proof. vm_compute. repeat split. Qed.
 
-(* API: filter  host.name == host  with filter_vars {host = "h"}: the recogniser resolves the variable
-   to "h" and returns host h; evaluation sees the host object there and matches nothing *)
-Lemma ar_api_filter_var_refuted :
+(* API: filter  host.name == host  with filter_vars {host = "h"}: the recogniser would resolve the variable
+   to "h" (and return host h) although evaluation sees the host object there and matches nothing.  Since the
+   fix (GetFilterTargets: shadowedVars) such a query is evaluated. *)
+Lemma ar_api_filter_var_fixed :
   let f := AEEq ar_w_hostname (AEVar ar_s_host) in
   let fv := [(ar_s_host, AVStr ar_w_h)] in
   ar_api_vars_ok fv = false /\
-  ar_api_fast ar_w_genv ar_w_inv false fv f = Some [(ar_w_h, [])] /\
+  ar_target_hosts (Some fv) f = Some [ar_w_h] /\
+  ar_api_fast ar_w_genv ar_w_inv false fv f = Some [] /\
   ar_api_plain ar_w_genv ar_w_inv false fv f = Some [].
 Proof. vm_compute. repeat split. Qed.
